@@ -159,27 +159,31 @@ theorem every_read_field_matters :
 
 /-! ## unknown keywords -/
 
-/-- unknown keywords never make Unmarshal fail: one more member with a key outside `Go.knownKeys` -/
+/-- unknown keywords never make Unmarshal fail: one more member with a key outside `Go.knownKeys`.
+    H_D4 (`hf`): the key is not a case variant of a keyword either — encoding/json matches struct fields
+    case-insensitively, so `{"Type":5}` fails like `{"type":5}` (known finding D4, `unmarshal_folded_is_keyword` below). -/
 theorem unmarshal_unknown_ok (rec : URec) (kvs : List (String × Json)) (k : String) (v : Json) (st : Store)
-    (hk : Go.knownKeys.contains k = false) :
+    (hk : Go.knownKeys.contains k = false) (hf : Go.isFoldedKey k = false) :
     (∃ r, Go.setFields rec (kvs ++ [(k, v)]) Go.emptyNode st = .ok r) ↔
     (∃ r, Go.setFields rec kvs Go.emptyNode st = .ok r) := by
   rw [Inv.setFields_append]
   cases Go.setFields rec kvs Go.emptyNode st with
   | ok p =>
-    simp only [Res.bind_ok, Go.setFields, Inv.setField_unknown rec p.1 p.2 k v hk]
+    simp only [Res.bind_ok, Go.setFields, Inv.setMember_unknown rec p.1 p.2 k v hk hf]
     exact ⟨fun _ => ⟨p, rfl⟩, fun _ => ⟨_, rfl⟩⟩
   | fuel => simp
   | panic => simp
   | err => simp
 
-/-- … and the resulting schema object differs from the original only in `extra`, the store not at all -/
+/-- … and the resulting schema object differs from the original only in `extra`, the store not at all.
+    H_D4 (`hf`): the key is not a case variant of a keyword (such a member also sets the keyword's field). -/
 theorem unmarshal_unknown_extra_only (rec : URec) (kvs : List (String × Json)) (k : String) (v : Json) (st st' : Store)
-    (n : Node) (hk : Go.knownKeys.contains k = false) (h : Go.setFields rec kvs Go.emptyNode st = .ok (n, st')) :
+    (n : Node) (hk : Go.knownKeys.contains k = false) (hf : Go.isFoldedKey k = false)
+    (h : Go.setFields rec kvs Go.emptyNode st = .ok (n, st')) :
     Go.setFields rec (kvs ++ [(k, v)]) Go.emptyNode st
       = .ok ({ n with extra := some ((n.extra.getD []) ++ [(k, v)]) }, st') := by
   rw [Inv.setFields_append, h]
-  simp only [Res.bind_ok, Go.setFields, Inv.setField_unknown rec n st' k v hk]
+  simp only [Res.bind_ok, Go.setFields, Inv.setMember_unknown rec n st' k v hk hf]
 
 /-- an outcome other than success is unchanged too (error, panic, out of fuel) — whatever the extra member is -/
 theorem unmarshal_unknown_fail (rec : URec) (kvs : List (String × Json)) (k : String) (v : Json) (st : Store)
@@ -192,19 +196,61 @@ theorem unmarshal_unknown_fail (rec : URec) (kvs : List (String × Json)) (k : S
 
 /-- the unknown member at ANY position of the object: with it and without it, Unmarshal fails the same way, or succeeds
     on both with the same store and schema objects that differ at most in `Extra` (later unknown members are appended
-    to a different `Extra`, later keyword members never read it) -/
+    to a different `Extra`, later keyword members — and case variants of keywords — never read it).
+    H_D4 (`hf`): the key itself is not a case variant of a keyword; the other members `l1`, `l2` are arbitrary. -/
 theorem unmarshal_unknown_anywhere (rec : URec) (l1 l2 : List (String × Json)) (k : String) (v : Json) (st : Store)
-    (hk : Go.knownKeys.contains k = false) :
+    (hk : Go.knownKeys.contains k = false) (hf : Go.isFoldedKey k = false) :
     (match Go.setFields rec (l1 ++ (k, v) :: l2) Go.emptyNode st, Go.setFields rec (l1 ++ l2) Go.emptyNode st with
      | .ok (a, s), .ok (b, t) => (∃ e, a = { b with extra := e }) ∧ s = t
      | .fuel, .fuel => True
      | .panic, .panic => True
      | .err, .err => True
      | _, _ => False) := by
-  have h := Inv.setFields_unknown_anywhere rec l1 l2 k v Go.emptyNode st hk
+  have h := Inv.setFields_unknown_anywhere rec l1 l2 k v Go.emptyNode st hk hf
   generalize Go.setFields rec (l1 ++ (k, v) :: l2) Go.emptyNode st = r1 at h ⊢
   generalize Go.setFields rec (l1 ++ l2) Go.emptyNode st = r2 at h ⊢
   cases r1 <;> cases r2 <;> first | exact h | exact False.elim h
+
+/-- **known finding D4 as the model (= the code) behaves.**  A key with `canonKey k ≠ k` — no keyword, but equal to one up
+    to letter case, e.g. "MINIMUM" or "Type" — is decoded by `json.Unmarshal` into that keyword's field exactly as if it had
+    been spelled like the keyword (same value, same failures), and `unmarshalStructWithMap` additionally keeps the member in
+    `Extra` because the key is not *exactly* a JSON name of the struct. -/
+theorem unmarshal_folded_is_keyword (rec : URec) (n : Node) (st : Store) (k : String) (v : Json)
+    (h : Go.canonKey k ≠ k) :
+    Go.setMember rec n st k v = (Go.setField rec n st (Go.canonKey k) v).bind fun p =>
+      .ok ({ p.1 with extra := some ((p.1.extra.getD []) ++ [(k, v)]) }, p.2) :=
+  Go.setMember_of_folded rec n st v h
+
+/-- the keys this concerns are exactly the class `Go.isFoldedKey` (hypothesis H_D4 is its complement), and the field they
+    are routed to is a keyword's -/
+theorem folded_iff (k : String) :
+    (Go.canonKey k ≠ k ↔ Go.isFoldedKey k = true) ∧ (Go.canonKey k ≠ k → Go.knownKeys.contains (Go.canonKey k) = true) := by
+  refine ⟨⟨Go.isFoldedKey_of_canonKey_ne, fun hf hc => ?_⟩, Go.canonKey_known_of_ne⟩
+  -- canonKey k = k and isFoldedKey k: k is no keyword, so `find?` returned none, so no keyword folds to k
+  unfold Go.isFoldedKey at hf
+  cases hk : Go.knownKeys.contains k with
+  | true => rw [hk] at hf; cases hf
+  | false =>
+    rw [hk] at hf
+    obtain ⟨x, hx, hp⟩ := List.any_eq_true.1 hf
+    unfold Go.canonKey at hc
+    rw [if_neg (by rw [hk]; decide)] at hc
+    cases hfind : Go.knownKeys.find? (Go.foldEq k) with
+    | none => exact absurd hp (List.find?_eq_none.1 hfind x hx)
+    | some c =>
+      rw [hfind] at hc
+      have hc' : c = k := hc
+      have := List.contains_iff_mem.2 (List.mem_of_find?_eq_some hfind)
+      rw [hc', hk] at this
+      cases this
+
+/-- a keyword or a key outside the class is matched exactly: `setMember` is `setField` -/
+theorem unmarshal_unfolded_is_exact (rec : URec) (n : Node) (st : Store) (k : String) (v : Json)
+    (h : Go.isFoldedKey k = false) : Go.setMember rec n st k v = Go.setField rec n st k v := by
+  apply Go.setMember_eq_setField
+  cases hk : Go.knownKeys.contains k with
+  | true => exact Go.canonKey_of_known hk
+  | false => exact Go.canonKey_of_unfolded hk h
 
 /-- hence the evaluator cannot tell the two schema objects apart -/
 theorem unknown_keyword_not_read (n : Node) (k : String) (v : Json) :
@@ -278,6 +324,8 @@ example : (Go.validateFuel { exEnv with st := #[{ allOf := some [1] }, { propert
 
 /-- unknown keyword: `{"type":"string","minLength":2}` then `"x-vendor":{"a":[1]}` -/
 example : Go.knownKeys.contains "x-vendor" = false := by decide
+/-- H_D4 holds of it -/
+example : Go.isFoldedKey "x-vendor" = false := by decide
 example :
     Go.setFields (Go.unmarshalFuel 3) [("type", .str "string"), ("minLength", .num 2)] Go.emptyNode #[]
       = .ok ({ type := "string", minLength := some 2 }, #[]) := by rfl
@@ -287,11 +335,11 @@ example :
         [("x-vendor", .obj [("a", .arr [.num 1])])]) Go.emptyNode #[]
       = .ok ({ type := "string", minLength := some 2, extra := some [("x-vendor", .obj [("a", .arr [.num 1])])] }, #[]) :=
   unmarshal_unknown_extra_only (Go.unmarshalFuel 3) [("type", .str "string"), ("minLength", .num 2)] "x-vendor"
-    (.obj [("a", .arr [.num 1])]) #[] #[] { type := "string", minLength := some 2 } (by decide) (by rfl)
+    (.obj [("a", .arr [.num 1])]) #[] #[] { type := "string", minLength := some 2 } (by decide) (by decide) (by rfl)
 /-- `unmarshal_unknown_ok` applied -/
 example : ∃ r, Go.setFields (Go.unmarshalFuel 3) ([("type", .str "string"), ("minLength", .num 2)] ++
     [("x-vendor", .null)]) Go.emptyNode #[] = .ok r :=
-  (unmarshal_unknown_ok (Go.unmarshalFuel 3) _ "x-vendor" .null #[] (by decide)).mpr ⟨_, by rfl⟩
+  (unmarshal_unknown_ok (Go.unmarshalFuel 3) _ "x-vendor" .null #[] (by decide) (by decide)).mpr ⟨_, by rfl⟩
 /-- the unknown member in the middle: `{"type":"string","x-vendor":1,"minLength":2}` -/
 example :
     Go.setFields (Go.unmarshalFuel 3) ([("type", .str "string")] ++ ("x-vendor", .num 1) :: [("minLength", .num 2)])
@@ -299,6 +347,27 @@ example :
 /-- a failing document keeps failing with the same outcome -/
 example : Go.setFields (Go.unmarshalFuel 3) ([("type", .num 1)] ++ [("x-vendor", .null)]) Go.emptyNode #[] = .err := by
   rfl
+
+/-- **witness of D4**: `{"MINIMUM": 5}` sets `minimum` AND keeps the member in `Extra` … -/
+example : Go.canonKey "MINIMUM" = "minimum" ∧ Go.isFoldedKey "MINIMUM" = true := by decide
+example :
+    Go.setFields (Go.unmarshalFuel 3) [("MINIMUM", .num 5)] Go.emptyNode #[]
+      = .ok ({ minimum := some 5, extra := some [("MINIMUM", .num 5)] }, #[]) := by rfl
+/-- … and `{"Type": 5}` makes Unmarshal fail like `{"type": 5}` does, so `hf` cannot be dropped from `unmarshal_unknown_ok`:
+    "Type" is outside `knownKeys`, `{}` unmarshals, `{"Type": 5}` does not -/
+example : Go.knownKeys.contains "Type" = false ∧ Go.isFoldedKey "Type" = true := by decide
+example : Go.setFields (Go.unmarshalFuel 3) [("Type", .num 5)] Go.emptyNode #[] = .err := by rfl
+example : Go.setFields (Go.unmarshalFuel 3) [("type", .num 5)] Go.emptyNode #[] = .err := by rfl
+example : ¬ ((∃ r, Go.setFields (Go.unmarshalFuel 3) ([] ++ [("Type", .num 5)]) Go.emptyNode #[] = .ok r) ↔
+             (∃ r, Go.setFields (Go.unmarshalFuel 3) [] Go.emptyNode #[] = .ok r)) := by
+  intro h
+  obtain ⟨r, hr⟩ := h.2 ⟨_, rfl⟩
+  exact absurd hr (by intro h; cases h)
+/-- `unmarshal_folded_is_keyword` applied -/
+example (rec : URec) (n : Node) (st : Store) :
+    Go.setMember rec n st "MINIMUM" (.num 5)
+      = .ok ({ n with minimum := some 5, extra := some ((n.extra.getD []) ++ [("MINIMUM", .num 5)]) }, st) :=
+  (unmarshal_folded_is_keyword rec n st "MINIMUM" (.num 5) (by decide)).trans (by rfl)
 
 /-! ### The per-node checks of Resolve (`checkLocal`, `basicChecks`) under a decoration
 
